@@ -2,7 +2,9 @@ use crate::{
     emulator::Emulator,
     error::{SnapshotLoadError, SnapshotSaveError},
     host::{DataRecorder, Host, LoadableAsset, SeekFrom, SeekableAsset},
-    zx::{joy::kempston, mouse::kempston::KempstonMouse, video::colors::ZXColor},
+    zx::{
+        joy::kempston, machine::ZXMachine, mouse::kempston::KempstonMouse, video::colors::ZXColor,
+    },
     Result,
 };
 
@@ -279,6 +281,15 @@ fn process_ramp_block<H: Host>(
         };
     }
 
+    // Pages the machine doesn't have can't be restored
+    let ram_pages = match emulator.settings.machine {
+        ZXMachine::Sinclair48K => 3,
+        ZXMachine::Sinclair128K => 8,
+    };
+    if page_num >= ram_pages {
+        return Err(SnapshotLoadError::InvalidSZXFile.into());
+    }
+
     let page_data = emulator.controller.memory.ram_page_data_mut(page_num);
 
     if flags & ZXSTRF_COMPRESSED != 0 {
@@ -291,6 +302,9 @@ fn process_ramp_block<H: Host>(
             match decompress_zlib_stream(&compressed_data) {
                 Ok(data) => {
                     return {
+                        if data.len() < page_data.len() {
+                            return Err(SnapshotLoadError::InvalidSZXFile.into());
+                        }
                         page_data.copy_from_slice(&data[..page_data.len()]);
                         Ok(())
                     }
@@ -300,6 +314,9 @@ fn process_ramp_block<H: Host>(
         }
     } else {
         let uncompressed_data: Vec<u8> = block_data[3..].to_vec();
+        if uncompressed_data.len() < page_data.len() {
+            return Err(SnapshotLoadError::InvalidSZXFile.into());
+        }
         page_data.copy_from_slice(&uncompressed_data[..page_data.len()]);
     }
 
